@@ -379,6 +379,22 @@ pub fn run_program<S: BuildHasher + Default + Send + Sync>(p: &Program, opts: Ru
             });
         }
         verdict = sched.run();
+        if verdict == Verdict::Stuck {
+            // a thread is blocked inside the operating system where no hook could see it; it cannot
+            // be unwound, so report and leave the process
+            let (cur, last) = {
+                let g = sched.inner.lock().unwrap();
+                (g.current, g.last_op.clone())
+            };
+            let tag = if opts.freeze.is_some() { "C12" } else { "C11" };
+            println!(
+                "FOUND {} thread {:?} stopped making progress without reaching a yield point (blocked outside the hooks: a lock or wait on a path that has none; last operations {:?}) || {}",
+                tag, cur, last, program_text(p)
+            );
+            use std::io::Write;
+            let _ = std::io::stdout().flush();
+            std::process::exit(3);
+        }
         if let Some((t, _, solo)) = opts.freeze {
             // the run stops when only the frozen writer is left (or the solo reader is blocked)
             let (frozen, solo_done) = {
